@@ -33,11 +33,13 @@ pub struct Reply {
     pub cut_at: Option<usize>,
     /// wait this long before answering
     pub stall: Option<Duration>,
+    /// wait this long between the successive writes of the body
+    pub drip: Option<Duration>,
 }
 
 impl Reply {
     pub fn ok(body: Vec<u8>) -> Reply {
-        Reply { status: 200, framing: Framing::ContentLength, body, fragments: vec![], cut_at: None, stall: None }
+        Reply { status: 200, framing: Framing::ContentLength, body, fragments: vec![], cut_at: None, stall: None, drip: None }
     }
 }
 
@@ -174,6 +176,9 @@ pub fn write_reply<S: Write>(s: &mut S, r: &Reply) {
         }
         let _ = s.flush();
         pos += n;
+        if let Some(d) = r.drip {
+            std::thread::sleep(d);
+        }
     }
     if r.cut_at.is_none() && r.framing == Framing::Chunked {
         let _ = s.write_all(b"0\r\n\r\n");
